@@ -547,6 +547,8 @@ class C08(CreateProp):
             if sum(sizes) == 0:
                 sizes = (P + 1,) * k
             tree = mk_tree(sh, sizes, nv=b % 6 if b % 2 else 0)
+            if b % 9 == 4:      # a payload literally called "~" (HOME points at an unrelated directory while it is created)
+                tree = mk_tree(sh, sizes, name="~")
             infoopts = [{}, {"private": True}, {"source": "SRC", "comment": "a comment é"},
                         {"private": True, "source": "x", "comment": "y"},
                         # text that LOOKS like a template of some kind (dates, names, variables): it is plain text
